@@ -50,6 +50,80 @@ fn profile(n: u64) -> PmProfile {
     }
 }
 
+/// width in bytes of the k-th assignable public scalar field (table at the top of coq/theories/Spec/FadtS.v)
+pub const WIDTHS: [u32; 42] = [
+    4, 4, 1, 2, 4, 1, 1, 1, 1, 4, 4, 4, 4, 4, 4, 4, 4, 1, 1, 1, 1, 1, 1, 1, 1, 2, 2, 2, 2, 1, 1, 1, 1, 1, 2, 4, 1, 2, 1, 8, 8, 8,
+];
+const K_FLAGS: u64 = 35;
+const N_GAS: u64 = 11;
+
+/// `b.<k-th assignable public scalar field> = (v as uN).into()`
+fn assign(b: &mut FADTBuilder, k: u64, v: u64) {
+    match k {
+        0 => b.firmware_ctrl = (v as u32).into(),
+        1 => b.dsdt = (v as u32).into(),
+        2 => b.preferred_pm_profile = v as u8,
+        3 => b.sci_int = (v as u16).into(),
+        4 => b.smi_cmd = (v as u32).into(),
+        5 => b.acpi_enable = v as u8,
+        6 => b.acpi_disable = v as u8,
+        7 => b.s4bios_req = v as u8,
+        8 => b.pstate_cnt = v as u8,
+        9 => b.pm1a_evt_blk = (v as u32).into(),
+        10 => b.pm1b_evt_blk = (v as u32).into(),
+        11 => b.pm1a_cnt_blk = (v as u32).into(),
+        12 => b.pm1b_cnt_blk = (v as u32).into(),
+        13 => b.pm2_cnt_blk = (v as u32).into(),
+        14 => b.pm_tmr_blk = (v as u32).into(),
+        15 => b.gpe0_blk = (v as u32).into(),
+        16 => b.gpe1_blk = (v as u32).into(),
+        17 => b.pm1_evt_len = v as u8,
+        18 => b.pm1_cnt_len = v as u8,
+        19 => b.pm2_cnt_len = v as u8,
+        20 => b.pm_tmr_len = v as u8,
+        21 => b.gpe0_blk_len = v as u8,
+        22 => b.gpe1_blk_len = v as u8,
+        23 => b.gpe1_base = v as u8,
+        24 => b.cst_cnt = v as u8,
+        25 => b.p_lvl2_lat = (v as u16).into(),
+        26 => b.p_lvl3_lat = (v as u16).into(),
+        27 => b.flush_size = (v as u16).into(),
+        28 => b.flush_stride = (v as u16).into(),
+        29 => b.duty_offset = v as u8,
+        30 => b.duty_width = v as u8,
+        31 => b.day_alrm = v as u8,
+        32 => b.mon_alrm = v as u8,
+        33 => b.century = v as u8,
+        34 => b.iapc_boot_arch = (v as u16).into(),
+        35 => b.flags = (v as u32).into(),
+        36 => b.reset_value = v as u8,
+        37 => b.arm_boot_arch = (v as u16).into(),
+        38 => b.fadt_minor_version = v as u8,
+        39 => b.x_firmware_ctrl = v.into(),
+        40 => b.x_dsdt = v.into(),
+        41 => b.hypervisor_vendor_identity = v.into(),
+        _ => panic!("harness: bad fadt field"),
+    }
+}
+
+/// `b.<g-th GAS-typed public field> = gas`
+fn assign_gas(b: &mut FADTBuilder, g: u64, gas: acpi_tables::gas::GAS) {
+    match g {
+        0 => b.reset_reg = gas,
+        1 => b.x_pm1a_evt_blk = gas,
+        2 => b.x_pm1b_evt_blk = gas,
+        3 => b.x_pm1a_cnt_blk = gas,
+        4 => b.x_pm1b_cnt_blk = gas,
+        5 => b.x_pm2_cnt_blk = gas,
+        6 => b.x_pm_tmr_blk = gas,
+        7 => b.x_gpe0_blk = gas,
+        8 => b.x_gpe1_blk = gas,
+        9 => b.sleep_control_reg = gas,
+        10 => b.sleep_status_reg = gas,
+        _ => panic!("harness: bad fadt gas field"),
+    }
+}
+
 pub fn run(case: &Sx, out: &mut Vec<Ev>) {
     let c = case.list();
     let ctor = c[0].list();
@@ -74,6 +148,21 @@ pub fn run(case: &Sx, out: &mut Vec<Ev>) {
             7 => b.flag(flag(n(1))),
             8 => b.gpe_info(n(1) as u32, n(2) as u32, n(3) as u8, n(4) as u8, n(5) as u8),
             9 => b.preferred_pm_profile(profile(n(1))),
+            10 => {
+                assign(&mut b, n(1), n(2));
+                b
+            }
+            11 => {
+                let gas = acpi_tables::gas::GAS::new(
+                    crate::t_hest::address_space(n(2)),
+                    n(3) as u8,
+                    n(4) as u8,
+                    crate::t_hest::access_size(n(5)),
+                    n(6),
+                );
+                assign_gas(&mut b, n(1), gas);
+                b
+            }
             _ => panic!("harness: bad fadt op"),
         };
         out.push(Ev::Num(0));
@@ -98,6 +187,291 @@ fn rand_other(rng: &mut Rng) -> Sx {
 
 fn flag_op(i: u64) -> Sx {
     l(vec![a(7), a(i)])
+}
+
+fn assign_op(k: u64, v: u64) -> Sx {
+    l(vec![a(10), a(k), a(v)])
+}
+
+fn max_of(k: u64) -> u64 {
+    let w = WIDTHS[k as usize];
+    if w == 8 {
+        u64::MAX
+    } else {
+        (1u64 << (8 * w)) - 1
+    }
+}
+
+/// a random direct assignment of a scalar field: full-range value of the field's type, sometimes a boundary
+fn rand_assign(rng: &mut Rng) -> Sx {
+    let k = rng.below(42);
+    let w = WIDTHS[k as usize];
+    let v = match rng.below(8) {
+        0 => 0,
+        1 => max_of(k),
+        2 => 0xffu64 << (8 * rng.below(w as u64)),
+        _ => rng.val(8 * w),
+    };
+    assign_op(k, v)
+}
+
+fn gas_op(g: u64, sp: u64, bw: u64, bo: u64, ac: u64, addr: u64) -> Sx {
+    l(vec![a(11), a(g), a(sp), a(bw), a(bo), a(ac), a(addr)])
+}
+
+fn rand_gas_assign(rng: &mut Rng) -> Sx {
+    let sp = *rng.pick(&crate::t_hest::SPACES);
+    gas_op(rng.below(N_GAS), sp, rng.val(8), rng.val(8), rng.below(5), rng.val(64))
+}
+
+/// a value of field k that is non-zero in every byte (so that a shifted, swapped or truncated field is visible)
+fn dense_val(rng: &mut Rng, k: u64) -> u64 {
+    let w = WIDTHS[k as usize];
+    let mut v = 0u64;
+    for i in 0..w {
+        v |= rng.range(1, 255) << (8 * i);
+    }
+    v
+}
+
+fn shuffle(rng: &mut Rng, ops: &mut Vec<Sx>) {
+    for i in (1..ops.len()).rev() {
+        let j = rng.below(i as u64 + 1) as usize;
+        ops.swap(i, j);
+    }
+}
+
+/// the public fields a builder method writes (assignable-field numbers), for the last-writer-wins cases
+fn fields_of_builder(id: u64) -> &'static [u64] {
+    match id {
+        1 | 2 => &[1, 40],
+        3 | 4 => &[0, 39],
+        5 | 6 => &[5, 6],
+        7 => &[35],
+        8 => &[15, 16, 21, 22, 23],
+        _ => &[2],
+    }
+}
+
+fn rand_builder(rng: &mut Rng, id: u64) -> Sx {
+    match id {
+        7 => flag_op(rng.below(25)),
+        _ => {
+            let mut op = rand_other(rng);
+            while op.list()[0].num() != id {
+                op = rand_other(rng);
+            }
+            op
+        }
+    }
+}
+
+/// direct assignment of the public fields (ops 10 / 11), alone and mixed with the builder methods
+fn gen_assign(tier: &str, rng: &mut Rng, emit: &mut Emit) {
+    let thorough = tier == "thorough";
+    // every assignable scalar field alone: boundary values, each single byte set, high-half-only values of the 64-bit fields
+    for k in 0..42u64 {
+        let w = WIDTHS[k as usize] as u64;
+        let m = max_of(k);
+        let mut vals = vec![0, 1, m, m - 1, m >> 1, (m >> 1) + 1];
+        for i in 0..w {
+            vals.push(0xffu64 << (8 * i));
+            vals.push(0x01u64 << (8 * i));
+        }
+        if w == 8 {
+            vals.extend([0xffff_ffff_0000_0000, 0x0000_0001_0000_0000, 0x8000_0000_0000_0000, rng.val(32) << 32, 0x0000_0000_ffff_ffff]);
+        }
+        for _ in 0..3 {
+            vals.push(dense_val(rng, k));
+        }
+        for v in vals {
+            let c = rand_ctor(rng);
+            emit.case(26, program(rng, c, vec![assign_op(k, v)]));
+        }
+        // assigned twice: the second value stays
+        let c = rand_ctor(rng);
+        let (v1, v2) = (dense_val(rng, k), dense_val(rng, k));
+        emit.case(26, program(rng, c, vec![assign_op(k, v1), assign_op(k, v2)]));
+    }
+    // every GAS field alone: every space id, every access size, boundary widths / offsets / addresses
+    for g in 0..N_GAS {
+        let mut args: Vec<(u64, u64, u64, u64, u64)> = Vec::new();
+        for sp in crate::t_hest::SPACES {
+            args.push((sp, rng.range(1, 255), rng.range(1, 255), rng.below(5), rng.val(64)));
+        }
+        for ac in 0..5u64 {
+            args.push((*rng.pick(&crate::t_hest::SPACES), rng.val(8), rng.val(8), ac, rng.val(64)));
+        }
+        for (bw, bo) in [(0u64, 0u64), (255, 0), (0, 255), (255, 255), (1, 2)] {
+            args.push((1, bw, bo, 3, rng.val(64)));
+        }
+        for addr in [0u64, 1, u64::MAX, u64::MAX - 1, 0xffff_ffff_0000_0000, 0x0000_0001_0000_0000, 0xffff_ffff] {
+            args.push((0, 64, 0, 4, addr));
+        }
+        for i in 0..8u64 {
+            args.push((0x7f, 0xa5, 0x5a, 2, 0xffu64 << (8 * i)));
+        }
+        args.push((0, 0, 0, 0, 0));
+        for (sp, bw, bo, ac, addr) in args {
+            let c = rand_ctor(rng);
+            emit.case(26, program(rng, c, vec![gas_op(g, sp, bw, bo, ac, addr)]));
+        }
+        // assigned twice, and two neighbouring GAS fields
+        let c = rand_ctor(rng);
+        let mut a1 = rand_gas_assign(rng);
+        let mut a2 = rand_gas_assign(rng);
+        if let (Sx::L(x), Sx::L(y)) = (&mut a1, &mut a2) {
+            x[1] = a(g);
+            y[1] = a(g);
+        }
+        emit.case(26, program(rng, c, vec![a1, a2]));
+        let c = rand_ctor(rng);
+        let mut a1 = rand_gas_assign(rng);
+        let mut a2 = rand_gas_assign(rng);
+        if let (Sx::L(x), Sx::L(y)) = (&mut a1, &mut a2) {
+            x[1] = a(g);
+            y[1] = a((g + 1) % N_GAS);
+        }
+        emit.case(26, program(rng, c, vec![a1, a2]));
+    }
+    // all fields assigned at once with distinct dense values (a swap, a shift or an unsummed tail is visible): in declaration
+    // order, in reverse, and shuffled
+    for round in 0..(if thorough { 200 } else { 40 }) {
+        let c = rand_ctor(rng);
+        let mut ops: Vec<Sx> = (0..42u64).map(|k| assign_op(k, dense_val(rng, k))).collect();
+        for g in 0..N_GAS {
+            let sp = *rng.pick(&crate::t_hest::SPACES);
+            ops.push(gas_op(g, sp, rng.range(1, 255), rng.range(1, 255), rng.range(1, 4), dense_val(rng, 41)));
+        }
+        match round % 3 {
+            0 => {}
+            1 => ops.reverse(),
+            _ => shuffle(rng, &mut ops),
+        }
+        // keep the case short enough for dense observation only some of the time
+        if round % 4 == 0 {
+            let mut v = vec![c];
+            v.extend(ops);
+            v.push(a(1));
+            emit.case(26, l(v));
+        } else {
+            emit.case(26, program(rng, c, ops));
+        }
+    }
+    // every field at its maximum (all 240 body bytes 0xFF where a field exists)
+    {
+        let c = rand_ctor(rng);
+        let mut ops: Vec<Sx> = (0..42u64).map(|k| assign_op(k, max_of(k))).collect();
+        for g in 0..N_GAS {
+            ops.push(gas_op(g, 0x7f, 255, 255, 4, u64::MAX));
+        }
+        emit.case(26, program(rng, c, ops));
+    }
+    // last writer wins between a builder method and the direct assignment of each field it writes, in both orders and
+    // sandwiched
+    for id in 1..=9u64 {
+        for &k in fields_of_builder(id) {
+            for _ in 0..(if thorough { 12 } else { 4 }) {
+                let c = rand_ctor(rng);
+                let ops = vec![rand_builder(rng, id), assign_op(k, dense_val(rng, k))];
+                emit.case(26, program(rng, c, ops));
+                let c = rand_ctor(rng);
+                let ops = vec![assign_op(k, dense_val(rng, k)), rand_builder(rng, id)];
+                emit.case(26, program(rng, c, ops));
+                let c = rand_ctor(rng);
+                let ops = vec![assign_op(k, dense_val(rng, k)), rand_builder(rng, id), assign_op(k, rng.val(8 * WIDTHS[k as usize]))];
+                emit.case(26, program(rng, c, ops));
+                let c = rand_ctor(rng);
+                let ops = vec![rand_builder(rng, id), assign_op(k, dense_val(rng, k)), rand_builder(rng, id)];
+                emit.case(26, program(rng, c, ops));
+            }
+        }
+    }
+    // the profile byte accepts any u8 when assigned directly
+    for p in [9u64, 10, 0x7f, 0x80, 0xff] {
+        let c = rand_ctor(rng);
+        emit.case(26, program(rng, c, vec![assign_op(2, p)]));
+    }
+    // flags assigned then flag() calls, flag() calls then flags assigned, and alternations
+    let fvals = |rng: &mut Rng| -> u64 {
+        match rng.below(6) {
+            0 => 0,
+            1 => 0xffff_ffff,
+            2 => 1 << rng.below(32),
+            3 => 0xff00_0000 | rng.val(24),
+            _ => rng.val(32),
+        }
+    };
+    for _ in 0..(if thorough { 2000 } else { 300 }) {
+        let c = rand_ctor(rng);
+        let nf = |rng: &mut Rng| -> Vec<Sx> { (0..rng.below(4)).map(|_| flag_op(rng.below(25))).collect() };
+        let mut ops: Vec<Sx> = Vec::new();
+        match rng.below(5) {
+            0 => {
+                ops.push(assign_op(K_FLAGS, fvals(rng)));
+                ops.push(flag_op(rng.below(25)));
+                ops.extend(nf(rng));
+            }
+            1 => {
+                ops.push(flag_op(rng.below(25)));
+                ops.extend(nf(rng));
+                ops.push(assign_op(K_FLAGS, fvals(rng)));
+            }
+            2 => {
+                ops.extend(nf(rng));
+                ops.push(assign_op(K_FLAGS, fvals(rng)));
+                ops.extend(nf(rng));
+                ops.push(assign_op(K_FLAGS, fvals(rng)));
+                ops.extend(nf(rng));
+            }
+            3 => {
+                ops.push(flag_op(rng.below(25)));
+                ops.push(assign_op(K_FLAGS, 0));
+                ops.push(flag_op(rng.below(25)));
+            }
+            _ => {
+                for _ in 0..rng.range(2, 12) {
+                    if rng.chance(1, 3) {
+                        ops.push(assign_op(K_FLAGS, fvals(rng)));
+                    } else {
+                        ops.push(flag_op(rng.below(25)));
+                    }
+                }
+            }
+        }
+        // other calls and assignments interleaved
+        for _ in 0..rng.below(4) {
+            let pos = rng.below(ops.len() as u64 + 1) as usize;
+            let o = match rng.below(3) {
+                0 => rand_other(rng),
+                1 => rand_gas_assign(rng),
+                _ => {
+                    let mut o = rand_assign(rng);
+                    while o.list()[1].num() == K_FLAGS {
+                        o = rand_assign(rng);
+                    }
+                    o
+                }
+            };
+            ops.insert(pos, o);
+        }
+        emit.case(26, program(rng, c, ops));
+    }
+    // random mixtures of builder calls and assignments, in random order, with repetitions
+    for _ in 0..(if thorough { 4000 } else { 400 }) {
+        let c = rand_ctor(rng);
+        let len = rng.range(1, 60);
+        let ops = (0..len)
+            .map(|_| match rng.below(10) {
+                0 | 1 => flag_op(rng.below(25)),
+                2 | 3 => rand_other(rng),
+                4 => rand_gas_assign(rng),
+                5 => assign_op(K_FLAGS, rng.val(32)),
+                _ => rand_assign(rng),
+            })
+            .collect();
+        emit.case(26, program(rng, c, ops));
+    }
 }
 
 fn rand_ctor(rng: &mut Rng) -> Sx {
@@ -227,4 +601,5 @@ pub fn gen(tier: &str, rng: &mut Rng, emit: &mut Emit) {
         let ops = (0..len).map(|_| if rng.chance(1, 3) { flag_op(rng.below(25)) } else { rand_other(rng) }).collect();
         emit.case(26, program(rng, c, ops));
     }
+    gen_assign(tier, rng, emit);
 }
